@@ -1,6 +1,7 @@
 import sys
 
 import python_minifier.ast_compat as ast
+from python_minifier.ast_annotation import get_parent
 
 from python_minifier.util import is_constant_node
 
@@ -108,6 +109,40 @@ def arg_rename_in_place(node):
         return True
 
     return False
+
+
+def insertion_cost(namespace):
+    """
+    The number of bytes needed to separate a statement inserted into a namespace from the statement that follows it
+
+    A simple statement is joined to a following simple statement with a ';'.
+    If a compound statement follows, the inserted statement needs a line of its own.
+
+    :param namespace: The namespace node a statement would be inserted into
+    :rtype: int
+
+    """
+
+    following = None
+    for node in namespace.body:
+        if (isinstance(node, ast.ImportFrom) and node.module == '__future__') or (
+            isinstance(node, ast.Expr) and is_constant_node(node.value, ast.Str)
+        ):
+            continue
+        following = node
+        break
+
+    if following is None or not (hasattr(following, 'body') or hasattr(following, 'cases')):
+        return 1
+
+    indent = 0
+    node = namespace
+    while node is not None and not isinstance(node, ast.Module):
+        if (isinstance(node, ast.stmt) and (hasattr(node, 'body') or hasattr(node, 'cases'))) or isinstance(node, ast.match_case):
+            indent += 1
+        node = get_parent(node)
+
+    return 1 + indent
 
 
 def insert(suite, new_node):
